@@ -33,6 +33,9 @@ def check(run: Run) -> None:
     from ..indexscen import bus_rules
 
     bus_rules(run, model, "C13.R2")
+    from ..indexing import removal_internals
+
+    removal_internals(run, model, "C13.R6")
     writeback_rules(run, model, "C13.R2")
     create_rules(run, model, "C13.R6")
     run.rule("C13.R7", "a re-run after a kill between the commit of a stamped page and its write-back re-stamps the note from the file's (unstamped) line without losing a word: "
